@@ -104,7 +104,7 @@ fn write_alphabet(dst: &mut Vec<u8>, alphabet: &[bool; ALPHABET_SIZE]) -> io::Re
     const NUL: u8 = 0x00;
 
     let mut iter = alphabet.iter().enumerate();
-    let mut prev_sym = 0;
+    let mut prev_sym = None;
 
     while let Some((sym, &a)) = iter.next() {
         if !a {
@@ -114,7 +114,7 @@ fn write_alphabet(dst: &mut Vec<u8>, alphabet: &[bool; ALPHABET_SIZE]) -> io::Re
         // SAFETY: `sym` < `ALPHABET_SIZE`.
         write_u8(dst, sym as u8)?;
 
-        if sym > 0 && sym - 1 == prev_sym {
+        if sym > 0 && prev_sym == Some(sym - 1) {
             let i = sym + 1;
             let len = alphabet[i..].iter().position(|&b| !b).unwrap_or(0);
             // SAFETY: `len` < `ALPHABET_SIZE`.
@@ -122,7 +122,7 @@ fn write_alphabet(dst: &mut Vec<u8>, alphabet: &[bool; ALPHABET_SIZE]) -> io::Re
             for _ in iter.by_ref().take(len) {}
         }
 
-        prev_sym = sym;
+        prev_sym = Some(sym);
     }
 
     write_u8(dst, NUL)?;
